@@ -20,7 +20,7 @@ RULE = ("note values: the 80 documented values (10 bases x dots 0..4 plain + 10 
         "fractions, 0, negatives, inf, nan, each predicate run under a deterministic budget of 10**5 traced line events. "
         "Non-trivial: dotted or tuplet value; perturbed value with e != 0; pair containing a dotted/tuplet value; "
         "meter whose beat unit is a non-integer (incl. inf/nan) or >= 2**53."
-        ' Also: near-identical floats are analysed before each exact value; counts above 2**53 and arbitrary big integers; beat units given as exact Fraction / Decimal numbers.')
+        ' Also: near-identical floats are analysed before each exact value; counts above 2**53 and arbitrary big integers; beat units given as exact Fraction / Decimal numbers; integer powers of two (and near misses) beyond the float range, up to 2**5000.')
 ASSUMPTIONS = [
     "values handed to mingus are the floats its own constructors (value.dots/triplet/quintuplet/septuplet) produce; "
     "the model computes with the exact rationals in vlib/ref/values.py",
@@ -297,7 +297,8 @@ def sub_meters_enum(ctx, shard, n):
     if ctx.quick:
         # every unit with a few counts, and every count with the interesting units
         key_units = [2 ** k for k in range(13)] + [0, -1, -2, -4, -8, 3, 5, 6, 7, 9, 10, 12, 24, 48, 96, 100, 1000, 4095,
-                     2 ** 53, 2 ** 53 + 2, 2 ** 70, 2 ** 70 + 2, 2 ** 100 + 2 ** 40, 2 ** 200]
+                     2 ** 53, 2 ** 53 + 2, 2 ** 70, 2 ** 70 + 2, 2 ** 100 + 2 ** 40, 2 ** 200,
+                     2 ** 1023, 2 ** 1024, 2 ** 1025, 2 ** 1024 + 2, 3 * 2 ** 1024, 2 ** 2000, 2 ** 4096, 2 ** 5000]
         cases = [[c, u] for u in units for c in (1, 6, 7)] + [[c, u] for c in COUNTS + BIG_COUNTS for u in key_units]
         cases += [[c, u] for u in EXACT_UNITS for c in (1, 3, 6, 7, 9)]
         bound = "units -64..4096 x counts {1,6,7}; counts -10..200 x %d units" % len(key_units)
@@ -321,7 +322,8 @@ def _unit_strategy():
     special = st.sampled_from([0.0, -0.0, 1.0, 2.0, 0.5, 1.5, 2.5, float("inf"), float("-inf"), float("nan"), 2.0 ** 53, 2.0 ** 53 + 2,
                                2.0 ** 1023, 1.7976931348623157e308, 5e-324, -1.0, -2.0, -4.0, 3.0, 6.0])
     ints = (st.integers(-2 ** 53 + 1, 2 ** 53 - 1) | st.integers(0, 52).map(lambda k: 2 ** k) | st.integers(-2 ** 90, 2 ** 90)
-            | st.integers(53, 300).map(lambda k: 2 ** k) | st.tuples(st.integers(54, 300), st.integers(1, 40)).map(lambda t: 2 ** t[0] + 2 ** t[1]))
+            | st.integers(53, 300).map(lambda k: 2 ** k) | st.integers(300, 5000).map(lambda k: 2 ** k)
+            | st.tuples(st.integers(300, 5000), st.integers(1, 299)).map(lambda t: 2 ** t[0] + 2 ** t[1]) | st.tuples(st.integers(54, 300), st.integers(1, 40)).map(lambda t: 2 ** t[0] + 2 ** t[1]))
     floats = st.floats(allow_nan=True, allow_infinity=True)
     return st.one_of(pow2, near_pow2, halves, fracs, special, ints, floats, st.floats(0, 4096))
 
